@@ -4,23 +4,26 @@
 # accessor files appear inside the packages they need to reach, and libp2p's defaults.go is replaced by a
 # copy without the QUIC transport (quic-go v0.29.1 does not compile with the installed go1.23).
 set -e
-H=/verif/harness
+V=${VERIF_ROOT:-/verif}
+R=${REPO_ROOT:-/repo}
+H=$V/harness
 . $H/env.sh
 mkdir -p $H/overlay $H/bin
 LIBP2P=/root/go/pkg/mod/github.com/libp2p/go-libp2p@v0.23.4/defaults.go
 sed -e '/p2p\/transport\/quic"/d' -e '/Transport(quic.NewTransport),/d' $LIBP2P > $H/overlay/libp2p_defaults.go
 python3 - <<PY
 import json, os
-H="/verif/harness"
+H="$H"
+R="$R"
 rep={"$LIBP2P": H+"/overlay/libp2p_defaults.go"}
 for f in sorted(os.listdir(H+"/drive")):
-    if f.endswith(".go"): rep["/repo/verifdrive/"+f]=H+"/drive/"+f
+    if f.endswith(".go"): rep[R+"/verifdrive/"+f]=H+"/drive/"+f
 for root,_,files in os.walk(H+"/hooks"):
     for f in files:
         if f.endswith(".go"):
             rel=os.path.relpath(os.path.join(root,f), H+"/hooks")
-            rep["/repo/"+rel]=os.path.join(root,f)
+            rep[R+"/"+rel]=os.path.join(root,f)
 json.dump({"Replace":rep}, open(H+"/overlay/o.json","w"), indent=1)
 PY
-cd /repo
+cd $R
 go build -overlay=$H/overlay/o.json -tags verif "$@" -o $H/bin/drive ./verifdrive
